@@ -13,6 +13,11 @@ class InjectedFault(Exception):
     """Raised by an armed gate (q_raise)."""
 
 
+class InjectedAbort(BaseException):
+    """Raised by an armed gate (q_raisebase): not an Exception - what a bare ``except:`` still catches (a cancelled task,
+    an interrupt, a user's own BaseException subclass)."""
+
+
 class _State:
     def __init__(self):
         self.armed = {}  # node -> mode ("raise" | "badtype")
@@ -70,6 +75,8 @@ def _gate(node, v):
         st.fired.append((node, mode))
         if mode == "raise":
             raise InjectedFault("armed gate at node %d" % node)
+        if mode == "raisebase":
+            raise InjectedAbort("armed gate at node %d" % node)
         return BADNUM if mode == "badnum" else BADCOMPLEX if mode == "badcomplex" else BAD
     return _unbox(v)
 
@@ -82,6 +89,8 @@ def _gate2(node, a, b):
         st.fired.append((node, mode))
         if mode == "raise":
             raise InjectedFault("armed gate at node %d" % node)
+        if mode == "raisebase":
+            raise InjectedAbort("armed gate at node %d" % node)
         return BADNUM if mode == "badnum" else BADCOMPLEX if mode == "badcomplex" else BAD
     a = _unbox(a)
     b = _unbox(b)
@@ -98,6 +107,8 @@ def _gate3(node, a, b, c):
         st.fired.append((node, mode))
         if mode == "raise":
             raise InjectedFault("armed gate at node %d" % node)
+        if mode == "raisebase":
+            raise InjectedAbort("armed gate at node %d" % node)
         return BADNUM if mode == "badnum" else BADCOMPLEX if mode == "badcomplex" else BAD
     a, b, c = _unbox(a), _unbox(b), _unbox(c)
     if isinstance(a, np.ndarray):
